@@ -641,6 +641,16 @@ impl CommandHub {
             return;
         };
 
+        // A final answer retires its request: a worker answering the same
+        // request twice must not be counted twice (and stand in for a worker
+        // that never answered).
+        if matches!(
+            ResponseStatus::try_from(response.status),
+            Ok(ResponseStatus::Ok | ResponseStatus::Failure)
+        ) {
+            self.in_flight.remove(&response.id);
+        }
+
         // A task created during this very loop iteration still sits in
         // `queued_tasks`: when the worker's answer is read in the same poll
         // batch as the client's request it must not be dropped as unknown.
